@@ -703,9 +703,12 @@ def time_at_sample_from_tof(
     :
         :math:`t_{sample}`
     """
-    c = sc.to_unit(
-        const.h / const.m_n,
-        sc.units.angstrom * elem_unit(L2) / elem_unit(tof),
-        copy=False,
+    c = as_float_type(
+        sc.to_unit(
+            const.h / const.m_n,
+            sc.units.angstrom * elem_unit(L2) / elem_unit(tof),
+            copy=False,
+        ),
+        tof,
     )
     return pulse_time + tof - L2 * wavelength / c
